@@ -12,6 +12,7 @@ CONSTANTS Comp = "multi"
   NBuf = 1
   Gaps <- G_none
   Strict = TRUE
+  Busy = FALSE
   D = 5
 INIT Init
 NEXT Next
